@@ -1,6 +1,6 @@
 (* C10 — idle-time expiry is exact and free of side effects. *)
 From Coq Require Import List Arith ZArith.
-From LK Require Import AList Model Inv StepInv PropLemmas.
+From LK Require Import AList Model Inv StepInv PropLemmas Idle.
 Import ListNotations.
 Open Scope Z_scope.
 
@@ -38,6 +38,23 @@ Theorem C10_tick : forall c s d s' o,
   step c s (LTick d) = ROk s' o -> s_ents s' = s_ents s /\ s_clock s' = s_clock s + d /\ 0 <= d.
 Proof. exact tick_keeps_entries. Qed.
 
+(* While an entry is unlocked nothing changes its value or its stamp, and nothing removes it: whatever
+   other threads do (locks of other keys, evictions offered and declined, scans, streams, cancellations,
+   clock ticks), in every state of a run during which the key is not locked ... *)
+Theorem C10_idle_entry_keeps_value_and_stamp : forall c k s ls s' vs,
+  reachable c s -> frozen k vs (s_ents s) -> steps_unlocked c k s ls s' -> frozen k vs (s_ents s').
+Proof. intros c k s ls s' vs H. exact (idle_entry_keeps_value_and_stamp c k s ls s' vs (reachable_inv c s H)). Qed.
+
+(* ... so a scan whose cut-off has reached that stamp returns it: repeated polling eventually returns
+   every idle entry. *)
+Theorem C10_idle_entry_eventually_returned : forall c k s ls s' v st a ct o s'' l e',
+  reachable c s -> frozen k (v, st) (s_ents s) -> steps_unlocked c k s ls s' ->
+  aget k (s_ents s') = Some e' -> e_owner e' = None ->
+  aget a (s_ops s') = Some (PScan ct) -> st <= ct ->
+  step c s' (LResume a o) = ROk s'' (OExpired l) ->
+  In k (map okey l).
+Proof. intros c k s ls s' v st a ct o s'' l e' H. exact (idle_entry_eventually_returned c k s ls s' v st a ct o s'' l e' (reachable_inv c s H)). Qed.
+
 Close Scope Z_scope.
 
 (* non-vacuity and the overlapping-holds scenario: lock A, lock B, drop B at t=1, drop A at t=5;
@@ -55,3 +72,25 @@ Proof. eexists. vm_compute. reflexivity. Qed.
 Example C10_witness_max :
   run (mkCfg true) [LStart 0 (CExpire 18446744073709551615%Z)] = RunOk init [OExpired []].
 Proof. vm_compute. reflexivity. Qed.
+
+(* non-vacuity of the idle-entry theorems: key 1 is inserted and dropped at t=0; then key 2 is locked,
+   the clock advances and a scan starts -- key 1 is unlocked throughout and the scan returns it. *)
+Example C10_idle_witness :
+  exists s s' s'' l,
+    run (mkCfg true) [LStart 0 (CLock ShTry 1 None); LResume 0 []; LGuardOp 0 (GInsert 10%Z);
+                      LStart 1 (CDrop 0); LResume 1 []] = RunOk s [ONothing; OGuard 0 1 None; OVal None; ONothing; OUnit] /\
+    frozen 1 (10%Z, 0%Z) (s_ents s) /\
+    steps_unlocked (mkCfg true) 1 s
+      [LStart 2 (CLock ShTry 2 None); LResume 2 []; LTick 7%Z; LStart 3 (CExpire 2%Z)] s' /\
+    step (mkCfg true) s' (LResume 3 []) = ROk s'' (OExpired l) /\ map okey l = [1].
+Proof.
+  eexists. eexists. eexists. eexists. split; [vm_compute; reflexivity|].
+  split; [eexists; split; vm_compute; reflexivity|].
+  split.
+  - eapply su_cons; [vm_compute; reflexivity|discriminate|vm_compute; reflexivity|reflexivity|].
+    eapply su_cons; [vm_compute; reflexivity|discriminate|vm_compute; reflexivity|reflexivity|].
+    eapply su_cons; [vm_compute; reflexivity|discriminate|vm_compute; reflexivity|reflexivity|].
+    eapply su_cons; [vm_compute; reflexivity|discriminate|vm_compute; reflexivity|reflexivity|].
+    apply su_nil.
+  - split; vm_compute; reflexivity.
+Qed.
